@@ -82,6 +82,39 @@ def populate(rng, L, steps, n=None, names=None, allow_invalid=False, now=None, o
     return made
 
 
+def occupy(rng, steps, made, pool, share=0.35):
+    """the live file system at recorded original locations: for a share of the entries ``made`` (as returned by populate)
+    something new sits at the location they were trashed from - a symlink to a sibling that carries another name of the
+    pool, a dangling symlink, a file, a directory.  A reader must take the recorded name, not what is there now.
+    Returns {location: kind}"""
+    occ = {}
+    locs = set(m[2] for m in made)
+    for _tdir, _nm, loc, _d in made:
+        if loc in occ or rng.random() >= share:
+            continue
+        if any(o != loc and (o.startswith(loc + '/') or loc.startswith(o + '/')) for o in locs):
+            continue
+        d, base = loc.rsplit('/', 1)
+        kind = rng.choice(['link_sibling', 'link_sibling', 'dangling', 'file', 'dir'])
+        if kind == 'link_sibling':
+            others = [n for n in pool if n != base and (d + '/' + n) not in locs and (d + '/' + n) not in occ and '/' not in n and n not in ('.', '..')]
+            if not others:
+                kind = 'dangling'
+            else:
+                tn = rng.choice(others)
+                steps.append(['f', d + '/' + tn, 'live sibling of ' + base, 0o644])
+                steps.append(['l', loc, tn])
+                occ[d + '/' + tn] = 'sibling-target'
+        if kind == 'dangling':
+            steps.append(['l', loc, rng.choice(['gone-away', '/no/such/place'])])
+        elif kind == 'file':
+            steps.append(['f', loc, 'newer file at the old place', 0o644])
+        elif kind == 'dir':
+            steps.append(['d', loc, 0o755])
+        occ[loc] = kind
+    return occ
+
+
 MALFORMED = ['nonsuffix', 'empty', 'truncated', 'binary', 'nonutf8', 'nopath', 'nodate', 'baddate',
              'nopayload', 'orphan', 'dir_in_info', 'infodir_named_trashinfo', 'only_header', 'crlf', 'offsetdate']
 
